@@ -112,6 +112,12 @@ class DimChecker:
         if isinstance(e, ast.Call):
             fn = norm(e.func)
             tail = callee_tail(e)
+            if tail not in self.rets and tail not in self.params:
+                # a single-expression helper the reference tree does not have stands for its body
+                from .dataflow import inline_new_helpers
+                e2 = inline_new_helpers(e, self.fi, depth=2)
+                if norm(e2) != norm(e):
+                    return self.ev(e2)
             if tail in PRESERVING and e.args:
                 return self.ev(e.args[0])
             if fn in ("max", "min") and len(e.args) >= 2:
